@@ -327,8 +327,12 @@ def r4_exception_sets(a, tier):
         floor=3,
     )
     raised: dict[str, str] = {}
+    scanned = []
     for q in (f'{PKT}.unpack', f'{PKT}.unhashed'):
-        fn = a.p.func(q)
+        for f_ in a.extents.of(a.p.func(q)):  # the function and the private helpers that exist only for it (`_verify_checksum`)
+            if f_ not in scanned:
+                scanned.append(f_)
+    for fn in scanned:
         for n in walk_no_defs(fn.node):
             if isinstance(n, ast.Raise) and isinstance(n.exc, ast.Call):
                 cls = None
